@@ -79,7 +79,7 @@ func c14BytesLen(r *vhRng) int {
 	case 3:
 		return r.Pick(62, 63, 64, 65)
 	case 4:
-		if r.Chance(1, 8) {
+		if r.Chance(1, 40) {
 			return r.Pick(16383, 16384, 16385)
 		}
 		return r.Pick(31, 32, 33)
@@ -116,7 +116,7 @@ func c14ListLen(r *vhRng, depth int) int {
 	case 3, 4, 5:
 		return 1
 	case 6:
-		if depth <= 1 && r.Chance(1, 3) {
+		if depth <= 1 && r.Chance(1, 6) {
 			return r.Pick(63, 64, 65)
 		}
 		return 4
